@@ -121,6 +121,45 @@ def all_witnesses():
     return sorted(res)
 
 
+def generated_witnesses(config, workdir):
+    """Witness pairs derived from the repository itself: every public conversion/packing method that `Color` defines for ONE
+    colour space only (read off the type-checked program's impl blocks) must be uncallable on a colour of every other space
+    with the same channel representation. New methods get their witnesses without anybody editing the corpus."""
+    import re
+    from . import facts
+    prog = facts.program(config)
+    table = {}
+    for p, b in prog.bodies.items():
+        m = re.match(r"retrofire_core::math::color::Color::<(\[[a-z0-9]+; \d+\]), math::color::(\w+)>::(\w+)$", p)
+        if m and b.kind == "AssocFn" and b.d.get("pub") and b.d.get("argc") == 1:
+            table.setdefault((m.group(1), m.group(2)), set()).add(m.group(3))
+    generic = set()
+    for p, b in prog.bodies.items():
+        m = re.match(r"retrofire_core::math::color::Color::<(.+)>::(\w+)$", p)
+        if m and b.kind == "AssocFn" and not re.match(r"\[[a-z0-9]+; \d+\], math::color::\w+$", m.group(1)):
+            generic.add(m.group(2))          # defined for a family of representations/spaces: not space-specific
+    out = []
+    gdir = os.path.join(workdir, "generated", "color")
+    os.makedirs(gdir, exist_ok=True)
+    for (repr_, space), meths in sorted(table.items()):
+        others = sorted({sp for (r2, sp) in table if r2 == repr_ and sp != space})
+        for meth in sorted(meths - generic):
+            for sp in others:
+                if meth in table.get((repr_, sp), set()):
+                    continue
+                name = "%s_on_%s_%s.rs" % (meth, sp.lower(), repr_.strip("[]").replace("; ", "x"))
+                path = os.path.join(gdir, name)
+                with open(path, "w") as f:
+                    f.write("//@ class: colour conversions (generated from the impl blocks)\n"
+                            "//@ entry: Color<%s, %s>::%s called on a Color<%s, %s>\n//@ expect: E0599\n"
+                            "use retrofire_core::math::color::{Color, Rgb, Rgba, Hsl, Hsla, LinRgb};\n\n"
+                            "#[cfg(misuse)]\npub fn f(c: Color<%s, %s>) {\n    let _ = c.%s(); //~ ERR\n}\n\n"
+                            "#[cfg(twin)]\npub fn f(c: Color<%s, %s>) {\n    let _ = c.%s();\n}\n"
+                            % (repr_, space, meth, repr_, sp, repr_, sp, meth, repr_, space, meth))
+                out.append(path)
+    return out
+
+
 def run_corpus(config, strict=False):
     """Returns list of result dicts, one per pair."""
     tgt = tempfile.mkdtemp(prefix="c10-tgt-", dir="/tmp")
@@ -135,12 +174,14 @@ def run_corpus(config, strict=False):
             if any(r not in feats for r in m["requires"]):
                 continue
             jobs.append((p, m))
+        for p in generated_witnesses(config, work):
+            jobs.append((p, parse_witness(p)))
 
         def job(pm):
             p, m = pm
             rc_t, e_t = compile_one(p, "twin", deps, metas, work)
             rc_m, e_m = compile_one(p, "misuse", deps, metas, work)
-            rel = os.path.relpath(p, WITNESS_DIR)
+            rel = os.path.relpath(p, WITNESS_DIR) if p.startswith(WITNESS_DIR) else os.path.relpath(p, work)
             res = {"file": rel, "class": m["class"], "entry": m["entry"],
                    "config": config, "twin_errors": e_t, "misuse_errors": e_m,
                    "expect": m["expect"], "marked": m["marked"]}
